@@ -63,8 +63,8 @@ COMPONENTS = {
 # cost: one pass ~22 s of one core; histories run in parallel (one forked worker each), the
 # scripts of one history sequentially (they share files).
 TIERS = {
-    "quick": {"histories": 16, "budget_s": 140, "timeout": 600, "batch": 16, "shrink_s": 150},
-    "thorough": {"histories": 200, "budget_s": 1000, "timeout": 900, "batch": 32, "shrink_s": 600},
+    "quick": {"histories": 16, "budget_s": 140, "timeout": 900, "batch": 16, "shrink_s": 150},
+    "thorough": {"histories": 200, "budget_s": 700, "timeout": 900, "batch": 32, "shrink_s": 600},
 }
 
 KIND_CYCLE = ["documented", "topological", "crash", "dirty", "double", "topological", "crash", "dirty"]
